@@ -576,9 +576,11 @@ func c06exec(c *h.Ctx, cs *h.Case) {
 				if cs.Class == "witness-replay" {
 					sig = c06sigReplay
 				}
-				if strings.HasPrefix(cs.Class, "boundary-expiry") && strings.HasPrefix(op, "c06 h.msg roster") {
-					// the class of the known finding (a parked description outlives its request):
-					// counted here, reported on the witness only
+				if cs.Class != "witness-replay" && strings.HasPrefix(op, "c06 h.msg roster") && everReq[id] {
+					// the class of the known finding (a description parked while its tree was requested
+					// outlives the request and is stored by its roster): counted here, reported with its
+					// exact signature on the witness only. Anything else a roster message stores into a
+					// slot that is not waiting is reported.
 					c.Count("known-class: parked description stored though no longer requested")
 					continue
 				}
@@ -1296,7 +1298,7 @@ func c06gen(c *h.Ctx, yield func(*h.Case)) {
 	for i := 0; i < c.Pick(450, 6000); i++ {
 		ops, _, ts := world()
 		t1, t2, t4, t5 := ts[0], ts[1], ts[3], ts[4]
-		switch i % 9 {
+		switch i % 10 {
 		case 0: // solicited, then repeated, then a different tree under the same id
 			ops = append(ops, "c06 h.request 1", resp(t1, 1, 1), resp(t1, 1, 1), resp(t5, 1, 1), "c06 h.msg reqtree 1 1", "c06 h.msg reqtree 1 0")
 			emit("history solicited", ops)
@@ -1320,6 +1322,16 @@ func c06gen(c *h.Ctx, yield func(*h.Case)) {
 			ops = append(ops, "c06 h.request 1", "c06 h.msg resptree "+t1.desc(0, 1)+" 1", "c06 h.msg tm "+t1.desc(0, 1), "c06 h.msg resptree T1,R1,0;- 1",
 				"c06 h.msg resptree T1,R1,2;"+strings.SplitN(t2.desc(1, 1), ";", 2)[1]+","+strings.SplitN(t2.desc(1, 1), ";", 2)[1]+" 1", "c06 h.msg reqtree 0 1", "c06 h.msg reqtree 77 1")
 			emit("history empty", ops)
+		case 8: // deprecated exchange interleaved with a ResponseTree for the same id: the description
+			// parked for the unknown roster (of another shape, or the same) must not replace the tree
+			// that arrived meanwhile (c06_never_replaces)
+			parked := t5.desc(1, 1)
+			if i%20 >= 10 {
+				parked = t1.desc(1, 1)
+			}
+			ops = append(ops, "c06 h.request 1", "c06 h.msg tm "+parked, resp(t1, 1, 1), "c06 h.msg roster 1", "c06 h.msg reqtree 1 1",
+				"c06 h.request 2", "c06 h.msg tm "+t2.desc(2, 1), "c06 h.msg tm "+t5.desc(2, 1), "c06 h.msg roster 1", "c06 h.msg roster 1", "c06 h.msg reqtree 2 1")
+			emit("history parked-then-response", ops)
 		case 7: // failed request, expiry
 			ops = append(ops, "c06 h.request 1", "c06 h.unrequest 1", resp(t1, 1, 1), "c06 h.request 1", resp(t1, 1, 1), "c06 h.unrequest 1", "c06 h.expire 1", resp(t1, 1, 1), "c06 h.msg reqtree 1 1")
 			emit("history unrequest-expire", ops)
@@ -1329,7 +1341,7 @@ func c06gen(c *h.Ctx, yield func(*h.Case)) {
 				alpha = append(alpha, fmt.Sprintf("c06 h.request %d", t.tid), resp(t, t.tid, t.ro.label), "c06 h.msg tm "+t.desc(t.tid, t.ro.id),
 					fmt.Sprintf("c06 h.msg reqtree %d %d", t.tid, r.Intn(2)), fmt.Sprintf("c06 h.unrequest %d", t.tid))
 			}
-			alpha = append(alpha, resp(t5, 1, 1), "c06 h.msg tm "+t5.desc(1, 1), "c06 h.msg roster 1", "c06 h.msg roster 2", "c06 h.msg roster 3",
+			alpha = append(alpha, resp(t5, 1, 1), "c06 h.msg tm "+t5.desc(1, 1), "c06 h.msg tm "+t5.desc(1, 1), "c06 h.request 1", "c06 h.msg roster 1", "c06 h.msg roster 1", "c06 h.msg roster 2", "c06 h.msg roster 3",
 				"c06 h.msg reqroster 1", "c06 h.msg reqroster 2", "c06 h.register 3", "c06 h.instance 2", resp(t2, 2, 3), resp(t1, 1, 2))
 			for j := 0; j < 6+r.Intn(14); j++ {
 				ops = append(ops, alpha[r.Intn(len(alpha))])
